@@ -46,7 +46,9 @@ def preceding(rnd, n):
         elif r < 0.35:
             s = fndef(name, ["a"], [let("t", bin_("+", ident("a"), I(1))), expr(ident("t"))])
         elif r < 0.5:
-            s = let(name, lit(vstr("a\nb" if rnd.random() < 0.7 else "x\n\ny")))
+            # literals spanning lines: a break inside, several, one right before the closing quote, right after
+            # the opening quote, only breaks
+            s = let(name, lit(vstr(rnd.choice(["a\nb", "x\n\ny", "usage:\n", "\nb", "\n", "a\n\n", "\n\n", "l1\nl2\nl3\n"]))))
         elif r < 0.6:
             s = filt(lit(vbool(False)), [let("z", I(1)), expr(ident("z"))])
         elif r < 0.7:
